@@ -58,7 +58,7 @@ def read_pydot(graph):
                                            "fillcolor": unq(str(a.get("fillcolor", ""))), "shape": unq(str(a.get("shape", "")))})
     edges = []
     for e in graph.get_edges():
-        edges.append((unq(e.get_source()), unq(e.get_destination()), unq(e.get_attributes().get("label", ""))))
+        edges.append((str(unq(e.get_source())), str(unq(e.get_destination())), unq(e.get_attributes().get("label", ""))))
     return nodes, edges
 
 
